@@ -91,6 +91,8 @@ pub struct Dir {
     pub read: u64,
     /// copy of everything written (when tapping is on)
     tap: Option<Vec<u8>>,
+    /// switchable at run time: rate of `Interrupted` errors returned to the writer
+    eintr_permille: u32,
 }
 
 impl Dir {
@@ -201,6 +203,9 @@ impl AsyncWrite for End {
             return Poll::Pending;
         }
         let mut d = this.tx.lock().unwrap();
+        if d.eintr_permille > 0 && fault("pipe_eintr_write", d.eintr_permille) {
+            return Poll::Ready(Err(io::ErrorKind::Interrupted.into()));
+        }
         if d.reset {
             return Poll::Ready(Err(io::ErrorKind::ConnectionReset.into()));
         }
@@ -310,6 +315,10 @@ impl Ctl {
     }
     pub fn rx_closed(&self) -> bool {
         self.rx.lock().unwrap().closed
+    }
+    /// From now on this end's writes fail with `Interrupted` at the given rate (light/heavy profiles).
+    pub fn set_eintr(&self, permille: u32) {
+        self.tx.lock().unwrap().eintr_permille = permille;
     }
     /// Start recording everything this end writes.
     pub fn tap_tx(&self) {
